@@ -79,6 +79,7 @@ func init() {
 			ruleLaneIntegrity(c, "C05.8")
 			ruleProviderCallOnlyInItsStatement(c, "C05.10")
 			rulePoolCountIsAntichain(c, "C05.11")
+			ruleCandidatePoolScannedWhole(c, "C05.12")
 			ruleQueueIsFIFO(c, "C05.9")
 			ruleSourcesSeededFirst(c, "C05.9")
 			ruleArgminOverCandidates(c, "C05.9")
@@ -96,6 +97,7 @@ func init() {
 		run: func(c *Ctx) {
 			ruleStmtOrder(c, "C06.1")
 			ruleLaneIntegrity(c, "C06.12")
+			ruleSameContextPredicate(c, "C06.13")
 			ruleHandlerNeverNil(c, "C06.2")
 			ruleErrorFlow(c, "C06.3", true, false, false)
 			ruleIsWaitTable(c, "C06.5")
@@ -131,6 +133,7 @@ func init() {
 			ruleHandlerDiscipline(c, "C07.7")
 			ruleDoneAndErrSameContext(c, "C07.9")
 			ruleWrapperIdentity(c, "C07.10")
+			ruleHandlerPassedUnchanged(c, "C07.11")
 			ruleHandlerNeverNil(c, "C07.1")
 			ruleWhoMayCall(c, "C07.9", "(*InjectorParam).Ref", "reference counts and channel flags are decided while the graph is built (Build), never while code is emitted", "(*Graph).Build")
 			ruleWhoMayCall(c, "C07.9", "(*InjectorProviderCallStmt).channelsWait", "a wait is emitted only by a provider statement for its own arguments", "(*InjectorProviderCallStmt).Stmt")
